@@ -567,8 +567,17 @@ func vRandomStackOps(g *vRandGen) ([]vOp, func(op *vOp, version int) []vStreamC)
 	g.nextIx["a.pcap"], g.nextIx["b.pcap"] = 0, 1<<32-20
 	files := [][]vStreamC{}
 	withPing := rng.Intn(4) == 0
+	// every fifth stack has a newer file whose streams start within the first second of the unix epoch (a capture from a
+	// device whose clock was never set): its reference second is 0, which is a time like any other
+	epochFile := -1
+	if rng.Intn(5) == 0 {
+		epochFile = 1 + rng.Intn(nFiles-1)
+	}
 	for f := 0; f < nFiles; f++ {
 		t := vT0.Add(time.Duration(rng.Intn(7)-3) * time.Second)
+		if f == epochFile {
+			t = time.Unix(0, 0).UTC()
+		}
 		cs := []vStreamC{}
 		used := map[uint64]bool{}
 		for _, id := range idPool {
@@ -577,6 +586,9 @@ func vRandomStackOps(g *vRandGen) ([]vOp, func(op *vOp, version int) []vStreamC)
 			}
 			used[id] = true
 			t2 := t.Add(time.Duration(rng.Intn(5000)-2000) * time.Millisecond)
+			if f == epochFile {
+				t2 = t.Add(time.Duration(rng.Intn(900)) * time.Millisecond)
+			}
 			// every fourth stack has a ping-pong stream in its oldest file, with further streams copied after it
 			g.ping = withPing && f == 0 && len(cs) == 0
 			cs = append(cs, g.stream(id, pool, t2, caps, false))
@@ -584,6 +596,7 @@ func vRandomStackOps(g *vRandGen) ([]vOp, func(op *vOp, version int) []vStreamC)
 		if len(cs) == 0 {
 			cs = append(cs, g.stream(idPool[0], pool, t, caps, false))
 		}
+		_ = epochFile
 		files = append(files, cs)
 	}
 	ops := []vOp{}
